@@ -267,7 +267,9 @@ def check(case, ctx):
             if d == '"' and bare_quote:
                 continue
             for inplace in (False, True):
-                lib = build.library([["entry", "article", "k", [["f", c]], "raw", 0], ["string", "s", c]])
+                # what else is in the library must not matter: a @string and an entry NAMED like the content (seed C10-g)
+                lib = build.library([["entry", "article", "k", [["f", c]], "raw", 0], ["string", "s", c], ["string", c, "{other}"],
+                                     ["entry", "book", c, [["f", "{other}"]], "raw2", 1], ["string", c.lower() or "x", '"o"']])
                 st, r = run(AddEnclosingMiddleware(reuse_previous_enclosing=False, enclose_integers=True, default_enclosing=d,
                                                    allow_inplace_modification=inplace), lib)
                 ctx.ran()
